@@ -181,7 +181,7 @@ def modelRa (n1 d1 n2 d2 : Int) : String :=
           | .ok l, .ok le, .ok g, .ok ge =>
             [("less", b2s l), ("less_equal", b2s le), ("greater", b2s g), ("greater_equal", b2s ge)]
           | _, _, _, _ =>
-            -- the four ordering traits evaluate the same two products: ill-formed together
+            -- the four ordering traits are built on `ratio_less`: ill-formed together (never, for valid operands)
             [("less", "ill-formed"), ("less_equal", "ill-formed"), ("greater", "ill-formed"), ("greater_equal", "ill-formed")]))
   | _, _ => "bad-operand"
 
